@@ -17,6 +17,12 @@ Theorem C15_shared_state_is_known : globals_known = true.
 Proof. vm_compute; reflexivity. Qed.
 Print Assumptions C15_shared_state_is_known.
 
+(* the option templates are copied by value per call; they hold no slice, map, pointer, function or interface
+   value other than nil, so the copy shares nothing with other calls *)
+Theorem C15_templates_share_nothing : templates_hold_no_references = true.
+Proof. vm_compute; reflexivity. Qed.
+Print Assumptions C15_templates_share_nothing.
+
 Theorem C15_every_write_needs_a_monitor : writes_guarded = true /\ monitor_state_private = true.
 Proof. split; vm_compute; reflexivity. Qed.
 Print Assumptions C15_every_write_needs_a_monitor.
